@@ -3214,7 +3214,28 @@ fn worker_storm(args: &[String]) -> i32 {
 			}
 		}));
 	}
-	// writer
+	// writer; in every fourth run it keeps an iterator open on ANOTHER environment all the while (a transaction of the
+	// writing thread on one environment has no say in the enlargement of another)
+	let other_env = if seed % 4 == 3 {
+		let d2 = format!("{}-other", dir);
+		let _ = std::fs::create_dir_all(&d2);
+		open_store(&d2, None).ok().map(|s2| {
+			if let Ok(mut b) = s2.batch() {
+				for q in 0..50u64 {
+					let _ = b.put(SPACE_KEYS[0], &storm_key(q), &enc_val(&storm_val(q)));
+				}
+				let _ = b.commit();
+			}
+			s2
+		})
+	} else {
+		None
+	};
+	let mut other_iter = other_env.as_ref().and_then(|s2| s2.iter(SPACE_KEYS[0], |k, v| Ok((k.to_vec(), v.to_vec()))).ok());
+	let held_on_other_env = other_iter.is_some();
+	if let Some(it) = other_iter.as_mut() {
+		let _ = it.next();
+	}
 	let mut j = 0u64;
 	let mut written = 0u64;
 	let mut batches = 0u64;
@@ -3249,6 +3270,9 @@ fn worker_storm(args: &[String]) -> i32 {
 	for h in handles {
 		let _ = h.join();
 	}
+	let other_items = other_iter.map(|it| 1 + it.count() as u64);
+	drop(other_env);
+	let _ = std::fs::remove_dir_all(format!("{}-other", dir));
 	verif_hooks::sched_arm(0);
 	let (resizes, live) = verif_hooks::resize_stats_take();
 	// final content
@@ -3269,6 +3293,7 @@ fn worker_storm(args: &[String]) -> i32 {
 		"reads": {"exists_present": ops[0].load(Ordering::Relaxed), "exists_absent": ops[1].load(Ordering::Relaxed), "get_ser": ops[2].load(Ordering::Relaxed), "iter": ops[3].load(Ordering::Relaxed)},
 		"read_errors": errs.iter().map(|(c, w)| json!({"class": c, "what": w})).collect::<Vec<_>>(),
 		"writer_error": werr, "missing_at_the_end": missing, "ms": t0.elapsed().as_millis() as u64,
+		"writer_held_an_iterator_on_another_environment": held_on_other_env, "items_of_that_iterator": other_items,
 		"sched_points": verif_hooks::sched_stats().0,
 	});
 	let _ = std::fs::write(&out, res.to_string());
@@ -3332,6 +3357,12 @@ fn storm_phase(run: &Run, scratch: &Scratch, seed: u64, n_jobs: usize, parallel:
 			run.count(&format!("storm.reads.{}", k), v["reads"][k].as_u64().unwrap_or(0));
 		}
 		run.count("storm.sched_points", u("sched_points"));
+		if v["writer_held_an_iterator_on_another_environment"].as_bool() == Some(true) {
+			run.count("storm.runs_in_which_the_writer_held_an_iterator_on_another_environment", 1);
+			if v["items_of_that_iterator"].as_u64() != Some(50) {
+				run.violation("storm;oracle=iterator_on_the_other_environment_sees_its_snapshot", &format!("the iterator the writer held on a second environment delivered {:?} of 50 items", v["items_of_that_iterator"]), replay.clone());
+			}
+		}
 		run.eval(&format!("storm;readers={};enlargements={}", [6, 2, 1][i % 3], u("enlargements").min(16)), u("enlargements") >= 2);
 		run.eval_bulk(v["reads"].as_object().map(|o| o.values().filter_map(|x| x.as_u64()).sum()).unwrap_or(0), vec![]);
 		if i == 0 {
